@@ -6,7 +6,7 @@ from props import dtfam
 
 ID = 'C09'
 PROPS_MODULE = 'Props.C09'
-THEOREMS = ['C09_smag_dx', 'C09_smag_dy', 'C09_smag3_dx', 'C09_finite', 'C09_zero_image', 'C09_avgpool_adjoint', 'C09_scat_j1_vjp', 'C09_cot_plane', 'C09_scat_j1_vjp_colour', 'C09_scat_j2_vjp', 'C09_linmag_entry']
+THEOREMS = ['C09_smag_dx', 'C09_smag_dy', 'C09_smag3_dx', 'C09_finite', 'C09_zero_image', 'C09_avgpool_adjoint', 'C09_scat_j1_vjp', 'C09_cot_plane', 'C09_scat_j1_vjp_colour', 'C09_scat_j2_vjp', 'C09_linmag_entry', 'C09_scat_j2_forward_total']
 VO = ['theories/Props/C09.vo', 'theories/Props/C06.vo', 'theories/Run/RunScat.vo']
 RULE = ('correspondence A: the hand-written backward passes of ScatLayerj1_f / ScatLayerj1_rot_f / ScatLayerj2_f / ScatLayerj2_rot_f (through torch.autograd.grad) and SmoothMagFn '
         '(value and both partials) vs the PrimFloat backward model (phase factors re/r, im/r, cotangent slicing, 1/4 upsampling, inverse stages with the a<->b exchange), '
